@@ -366,3 +366,33 @@ def tracing_level_floor(ctx):
         ctx.check(ok, key, 'pop only above MIN_TRACING_LEVEL',
                   'a tracer can be dropped (line %d) when the tracing level is already at its minimum: at level 0 no marker is random '
                   'and every issued identifier is the same' % c.ln, 'guarded by level != / > MIN_TRACING_LEVEL', c.where())
+
+
+@rule('C17', 'refreshed-id-stored', configs=('default', 'p256'))
+def refreshed_id_stored(ctx):
+    """'Every issued user key is registered': refresh_id may replace the registered identifier (it deletes the old one when the
+    tracing level changed), so a refresh that succeeds must hand the key the identifier refresh_id returned — every Ok(()) of
+    refresh is dominated by `usk.id = <result of refresh_id>`; there is no success path that skips the store."""
+    from .c02 import root_descr
+    F = ctx.F
+    rb = F.fn('core::primitives::refresh')
+    rid = rb.calls(r'TracingSecretKey::refresh_id$')
+    ctx.check(len(rid) == 1, rb.key, 'one refresh_id', 'refresh calls refresh_id %d times' % len(rid), '', rb.where())
+    if len(rid) != 1:
+        return
+    stores = []
+    for b in sorted(rb.live_blocks()):
+        for st in rb.stmts(b):
+            lp = st['lhs']['p']
+            if lp and isinstance(lp[-1], dict) and lp[-1].get('n') == 'id' and lp[-1].get('o') == 'core::UserSecretKey':
+                srcs = copy_chain_sources(rb, st['rv'].get('a'), through_calls=(r'^std::ops::Try::branch$',) + tuple(IDENTITY_CALLS)) \
+                    if st['rv']['k'] == 'use' else []
+                if srcs and all(s[0] == 'call' and s[1] is rid[0] for s in srcs):
+                    stores.append(b)
+    oks = [b for b in sorted(rb.live_blocks()) for st in rb.stmts(b)
+           if st['rv']['k'] == 'agg' and st['rv'].get('adt') == 'std::result::Result' and st['rv']['variant'] == 'Ok' and st['lhs']['l'] == 0]
+    ctx.check(bool(stores) and bool(oks) and all(any(rb.block_dominates(s, b) for s in stores) for b in oks), rb.key,
+              'Ok(()) <= usk.id = refresh_id(..)',
+              'refresh can succeed without storing the identifier returned by refresh_id in the key: when the tracing level changed '
+              'the old identifier has just been deleted, and the key is left with an identifier the master key no longer knows',
+              'every Ok(()) dominated by the store', rb.where())
